@@ -31,7 +31,10 @@
      - writing the parsed message and parsing the result yields the same listed fields and consumes exactly the
        bytes written; writing the re-parsed message reproduces the same bytes;
      - an exported file holds the same messages in the same order, nothing else, and exporting the export is
-       byte-identical.
+       byte-identical;
+     - what a write call delivers does not depend on the destination's (legal) std::io::Write behaviour: Ok => exactly
+       the bytes the same call writes into a Vec; a destination failing before the end => Err; Err without a failing
+       destination only if the destination answered Interrupted (Layout!DestOk).
    Narrower readings: a message whose version bits are not 1 may be refused by the parser (then nothing is claimed);
    WHICH flags / len the writer chooses, and whether the parser keeps the original header byte, is not part of the
    verdict - a deviation from Layout's design (normal form, verbatim htyp) is only recorded as design drift (`drift`).                                                                            *)
@@ -76,7 +79,7 @@ WxOk(e, x) == L!FitsX(L!ParseView(e.m), x.weid, x.wsid) =>
 RtOk(e) == /\ L!WellFormed(e.m)                          \* the driver stayed inside the domain
            /\ (e.m.vers = 1 => e.p1.ok)
            /\ (e.p1.ok => /\ OrigOk(e) /\ RoundTripOk(e) /\ \A i \in 1..Len(e.wx) : WxOk(e, e.wx[i])
-                          /\ \A i \in 1..Len(e.ww) : LET d == e.ww[i] IN L!DestOk(d.ref_len, d.limit, d.ok, d.arrived, d.equal))
+                          /\ \A i \in 1..Len(e.ww) : LET d == e.ww[i] IN L!DestOk(d.ref_len, d.limit, d.writer = "intr", d.ok, d.arrived, d.equal))
 \* design drift only: the writer's choice of flags / len against Layout's normal form
 NormalFormSeen(e) == LET w == L!Write(L!ParseView(e.m)) IN
                        /\ e.w1.htyp = L!htyp(w) /\ e.w1.len = w.len /\ e.w1.bytes = L!WrittenBytes(L!ParseView(e.m))
